@@ -131,6 +131,14 @@ func (l *Lin) SingleVar() (int, bool) {
 	return l.vs[0], true
 }
 
+// VarPlusConst decomposes l = v + c (coefficient 1).
+func (l *Lin) VarPlusConst() (v int, c int64, ok bool) {
+	if l.bad || len(l.vs) != 1 || l.cs[0] != 1 {
+		return 0, 0, false
+	}
+	return l.vs[0], l.c, true
+}
+
 func (l *Lin) Vars() []int { return l.vs }
 
 func (l *Lin) coef(v int) int64 {
